@@ -32,8 +32,8 @@ theorem bound_ms (ha : AssetsOk ke ctx a) : (ms : Ms) → good ke ctx ms = true 
       exact ⟨_, rfl, by simp, by simpa using p2, fun _ => by simpa using p3⟩
     · simp only [satDissat, extOf, pkK_dis]
       exact SB_const (w := [.pushZero]) rfl ⟨by simp, by simp [Ph.size], fun _ => by simp [phSs]⟩
-  | .pkH k, hg => by
-    simp only [good, decide_eq_true_eq] at hg
+  | .pkH k, _ => by
+    have hg := pkLen_le_keySig ke ctx k
     apply P_leafSB
     · simp only [satDissat, extOf, pkH_sat]
       intro w hw
@@ -141,27 +141,35 @@ theorem bound_ms (ha : AssetsOk ke ctx a) : (ms : Ms) → good ke ctx ms = true 
       exact SB_const (w := [.hashDissat]) rfl ⟨by simp, by simp [Ph.size], fun _ => by simp [phSs]⟩
   | .alt x, hg => by
     simp only [good] at hg
-    simpa [P, satDissat, extOf, castAlt] using bound_ms ha x hg
+    simpa [P, satDissat, extOf, castAlt, disOK] using bound_ms ha x hg
   | .swap x, hg => by
     simp only [good] at hg
-    simpa [P, satDissat, extOf, castSwap] using bound_ms ha x hg
+    simpa [P, satDissat, extOf, castSwap, disOK] using bound_ms ha x hg
   | .check x, hg => by
     simp only [good] at hg
-    simpa [P, satDissat, extOf, castCheck] using bound_ms ha x hg
+    simpa [P, satDissat, extOf, castCheck, disOK] using bound_ms ha x hg
   | .zeroNotEqual x, hg => by
     simp only [good] at hg
-    simpa [P, satDissat, extOf, castZeroNotEqual] using bound_ms ha x hg
-  | .dupIf x, hg => by simp [good] at hg
+    simpa [P, satDissat, extOf, castZeroNotEqual, disOK] using bound_ms ha x hg
+  | .dupIf x, hg => by
+    simp only [good] at hg
+    have ih := bound_ms ha x hg
+    refine ⟨?_, fun _ => ?_⟩
+    · simp only [satDissat, extOf, castDupIf]
+      exact SB_push [.pushOne] _ dupIf_push ih.1
+    · simp only [satDissat, extOf, castDupIf]
+      exact SB_const (w := [.pushZero]) rfl ⟨by simp, by simp [Ph.size], fun _ => by simp [phSs]⟩
   | .verify x, hg => by
     simp only [good] at hg
     have ih := bound_ms ha x hg
-    refine ⟨by simpa [satDissat, extOf, castVerify] using ih.1, fun h => ?_⟩
-    simp [extOf, castVerify] at h
+    refine ⟨by simpa [satDissat, extOf, castVerify] using ih.1, fun _ => ?_⟩
+    simpa [satDissat] using SB_impossible _ _
   | .nonZero x, hg => by
     simp only [good] at hg
     have ih := bound_ms ha x hg
     refine ⟨by simpa [satDissat, extOf, castNonZero] using ih.1, fun _ => ?_⟩
-    simpa [satDissat] using SB_impossible _ _
+    simp only [satDissat, extOf, castNonZero]
+    exact SB_const (w := [.pushZero]) rfl ⟨by simp, by simp [Ph.size], fun _ => by simp [phSs]⟩
   | .andB l r, hg => by
     simp only [good, Bool.and_eq_true] at hg
     have ihl := bound_ms ha l hg.1
@@ -169,10 +177,9 @@ theorem bound_ms (ha : AssetsOk ke ctx a) : (ms : Ms) → good ke ctx ms = true 
     refine ⟨?_, fun h => ?_⟩
     · simp only [satDissat, extOf, ExtData.andB]
       exact SB_concat additive_catB ihl.1 ihr.1
-    · simp only [extOf, ExtData.andB] at h
-      obtain ⟨h1, h2⟩ := zipMap_isSome h
+    · simp only [disOK, Bool.and_eq_true] at h
       simp only [satDissat, extOf, ExtData.andB]
-      exact SB_concat additive_catB (ihl.2 h1) (ihr.2 h2)
+      exact SB_concat additive_catB (ihl.2 h.1) (ihr.2 h.2)
   | .andV l r, hg => by
     simp only [good, Bool.and_eq_true] at hg
     have ihl := bound_ms ha l hg.1
@@ -180,28 +187,29 @@ theorem bound_ms (ha : AssetsOk ke ctx a) : (ms : Ms) → good ke ctx ms = true 
     refine ⟨?_, fun h => ?_⟩
     · simp only [satDissat, extOf, ExtData.andV]
       exact SB_concat additive_catV ihl.1 ihr.1
-    · simp [extOf, ExtData.andV] at h
+    · simp only [disOK] at h
+      simp only [satDissat]
+      exact SB_of_not_stack (concat_not_stack_right (noDis_sound _ r h))
   | .andOr x y z, hg => by
     simp only [good, Bool.and_eq_true] at hg
     obtain ⟨⟨⟨gx, gy⟩, gz⟩, cx⟩ := hg
     have ihx := bound_ms ha x gx
     have ihy := bound_ms ha y gy
     have ihz := bound_ms ha z gz
-    have dx := dis_of_childOk ihx.2 cx
+    have dx := ihx.2 cx
     refine ⟨?_, fun h => ?_⟩
     · simp only [satDissat, extOf, ExtData.andOr]
       exact SB_minFn _ (SB_concat additive_catV ihx.1 ihy.1) (SB_concat additive_catV dx ihz.1)
-    · simp only [extOf, ExtData.andOr] at h
-      obtain ⟨_, h2⟩ := zipMap_isSome h
+    · simp only [disOK, Bool.and_eq_true] at h
       simp only [satDissat, extOf, ExtData.andOr]
-      exact SB_concat additive_catV dx (ihz.2 h2)
+      exact SB_concat additive_catV dx (ihz.2 h.2)
   | .orB l r, hg => by
     simp only [good, Bool.and_eq_true] at hg
     obtain ⟨⟨⟨gl, gr⟩, cl⟩, cr⟩ := hg
     have ihl := bound_ms ha l gl
     have ihr := bound_ms ha r gr
-    have dl := dis_of_childOk ihl.2 cl
-    have dr := dis_of_childOk ihr.2 cr
+    have dl := ihl.2 cl
+    have dr := ihr.2 cr
     refine ⟨?_, fun _ => ?_⟩
     · simp only [satDissat, extOf, ExtData.orB]
       apply SB_of_stack_or _ (SB_concat additive_catB ihl.1 dr) (SB_concat additive_catB dl ihr.1)
@@ -214,51 +222,47 @@ theorem bound_ms (ha : AssetsOk ke ctx a) : (ms : Ms) → good ke ctx ms = true 
     obtain ⟨⟨gl, gr⟩, cl⟩ := hg
     have ihl := bound_ms ha l gl
     have ihr := bound_ms ha r gr
-    have dl := dis_of_childOk ihl.2 cl
+    have dl := ihl.2 cl
     refine ⟨?_, fun h => ?_⟩
     · simp only [satDissat, extOf, ExtData.orD]
       exact SB_minFn _ ihl.1 (SB_concat additive_catV dl ihr.1)
-    · simp only [extOf, ExtData.orD] at h
-      obtain ⟨_, h2⟩ := zipMap_isSome h
+    · simp only [disOK, Bool.and_eq_true] at h
       simp only [satDissat, extOf, ExtData.orD]
-      exact SB_concat additive_catV dl (ihr.2 h2)
+      exact SB_concat additive_catV dl (ihr.2 h.2)
   | .orC l r, hg => by
     simp only [good, Bool.and_eq_true] at hg
     obtain ⟨⟨gl, gr⟩, cl⟩ := hg
     have ihl := bound_ms ha l gl
     have ihr := bound_ms ha r gr
-    have dl := dis_of_childOk ihl.2 cl
+    have dl := ihl.2 cl
     refine ⟨?_, fun _ => ?_⟩
     · simp only [satDissat, extOf, ExtData.orC]
       exact SB_minFn _ ihl.1 (SB_concat additive_catV dl ihr.1)
     · simpa [satDissat] using SB_impossible _ _
   | .orI l r, hg => by
     simp only [good, Bool.and_eq_true] at hg
-    obtain ⟨⟨⟨gl, gr⟩, cl⟩, cr⟩ := hg
+    obtain ⟨gl, gr⟩ := hg
     have ihl := bound_ms ha l gl
     have ihr := bound_ms ha r gr
-    have dl := dis_of_childOk ihl.2 cl
-    have dr := dis_of_childOk ihr.2 cr
-    refine ⟨?_, fun _ => ?_⟩
+    refine ⟨?_, fun h => ?_⟩
     · simp only [satDissat, extOf, ExtData.orI]
       exact SB_minFn _ (SB_push [.pushOne] with1 with1_push ihl.1) (SB_push [.pushZero] with0 with0_push ihr.1)
-    · simp only [satDissat, extOf, ExtData.orI]
-      exact SB_minFn _ (SB_push [.pushOne] with1 with1_push dl) (SB_push [.pushZero] with0 with0_push dr)
+    · simp only [disOK, Bool.and_eq_true] at h
+      simp only [satDissat, extOf, ExtData.orI]
+      exact SB_minFn _ (SB_push [.pushOne] with1 with1_push (ihl.2 h.1))
+        (SB_push [.pushZero] with0 with0_push (ihr.2 h.2))
   | .thresh k xs, hg => by
-    simp only [good, Bool.and_eq_true] at hg
-    obtain ⟨gxs, gt⟩ := hg
-    have hall := bound_list ha xs gxs
-    simp only [threshGood, Bool.and_eq_true] at gt
-    obtain ⟨⟨⟨gsome, g1⟩, g2⟩, g3⟩ := gt
+    simp only [good] at hg
+    obtain ⟨hall, hhd⟩ := bound_list ha xs hg
     refine ⟨?_, fun _ => ?_⟩
     · simp only [satDissat, extOf]
       intro w hw
       obtain ⟨ch, hlen, hcnt, hfc⟩ := thresh_sat_choice (⟨ke, ctx, mall, rhs, a⟩ : SatCfg) k _ w hw
       obtain ⟨ws, hst, e1, e2, e3⟩ := foldConcat_stacks hfc
-      obtain ⟨z1, z2, z3, z4, z5, z6⟩ := chosen_bound (ess ctx) _ _ ch ws hall hlen hst
-      obtain ⟨d, hd⟩ := Option.isSome_iff_exists.1 gsome
-      obtain ⟨b1, b2, b3⟩ := threshold_sat_bound k (extsOf ke ctx xs) _ z1 z3 (by rw [z2]; exact hcnt) d hd
-        ⟨cutOk_of_B g1, cutOk_of_B g2, cutOk_of_B g3⟩
+      obtain ⟨z1, z0, z2, z3, z4, z5, z6⟩ := chosen_bound (ess ctx) _ _ ch ws hall hlen hst
+      obtain ⟨d, hd, b1, b2, b3⟩ := threshold_sat_bound k (extsOf ke ctx xs) _ z1 z3
+        (by rw [z2, z0]; exact hcnt)
+        (fun x hx => hhd x.1 (by rw [← z1]; exact List.mem_map_of_mem hx))
       refine ⟨d, hd, by omega, by omega, fun he => ?_⟩
       have := z6 he; omega
     · simp only [satDissat, extOf, threshold_dissat]
@@ -269,13 +273,18 @@ theorem bound_ms (ha : AssetsOk ke ctx a) : (ms : Ms) → good ke ctx ms = true 
       have := i3 he; simp only at this; omega
 theorem bound_list (ha : AssetsOk ke ctx a) : (xs : MsList) → goods ke ctx xs = true →
     AllSB (ess ctx) (satDissats (⟨ke, ctx, mall, rhs, a⟩ : SatCfg) xs) (extsOf ke ctx xs)
-  | .nil, _ => by simp [satDissats, extsOf, AllSB]
+      ∧ ∀ p ∈ tv0 (extsOf ke ctx xs), p.2.isSome = true
+  | .nil, _ => by simp [satDissats, extsOf, AllSB, tv0]
   | .cons x xs, hg => by
     simp only [goods, Bool.and_eq_true] at hg
-    obtain ⟨⟨gx, cx⟩, gxs⟩ := hg
+    obtain ⟨⟨⟨gx, cx⟩, hx⟩, gxs⟩ := hg
     have ihx := bound_ms ha x gx
-    simp only [satDissats, extsOf, AllSB]
-    exact ⟨⟨ihx.1, dis_of_childOk ihx.2 cx⟩, bound_list ha xs gxs⟩
+    obtain ⟨ih1, ih2⟩ := bound_list ha xs gxs
+    simp only [satDissats, extsOf, AllSB, tv0, List.map_cons, List.mem_cons]
+    refine ⟨⟨⟨ihx.1, ihx.2 cx⟩, ih1⟩, ?_⟩
+    rintro p (rfl | hp)
+    · exact hx
+    · exact ih2 p hp
 end
 
 end MsVerif.C09
